@@ -2,7 +2,7 @@
 From Coq Require Import ZArith List.
 From Coq Require Extraction.
 From Coq Require Import ExtrOcamlBasic.
-From C08 Require Import Model.
+From C08 Require Import Model Fp.
 Extraction Language OCaml.
 Cd "ocaml".
 Extraction "model.ml" zp_setdegree zp_degree zp_leadcoef zp_isZero zp_areEqual zp_assign zp_monomial zp_eval
